@@ -71,6 +71,18 @@ CHECKS = {
         TRUSTED + "; off-grid values for order 0/3 are only required to be finite",
         "DESIGN.md 4/C02",
     ),
+    "C15": (
+        "model_checking",
+        "spec/Binning.tla states block summation with dropped remainder, scale' = b*scale, pos' = pos-(b-1)/2*scale and "
+        "derives the BinIdentity (binned sub-volume = block sum of the b-times larger original sub-volume) as an axis-wise "
+        "algebraic identity that TLC checks on every case; for each case (image shapes divisible or not, b=1..6, odd/even/"
+        "non-cubic boxes, positions on the binned grid incl. over the edge, single/batch, numpy/dask, compute flag) TLC "
+        "emits the exact block of original voxels every binned voxel must sum; the real binning() result is compared "
+        "voxel by voxel on integer tomograms, together with scale, position update, image shape and parent immutability.",
+        "TLA+ spec Binning.tla model-checked by TLC; emitted block expectations replayed against real loaders",
+        TRUSTED,
+        "DESIGN.md 4/C15",
+    ),
 }
 
 REASON_TODO = "check not built yet in this round (planned: see DESIGN.md section 4)"
